@@ -138,7 +138,7 @@ def roundtrip_dump_table(tier, seed):
     am = atomman()
     rng = np.random.RandomState(seed + 5)
     pbcs = F.PBCS if tier == 'thorough' else [(True, True, True), (True, False, True), (False, False, False)]
-    units_l = ['metal', 'real'] if tier == 'quick' else ['real', 'metal', 'si', 'cgs', 'electron', 'micro', 'nano']
+    units_l = ['metal', 'nano'] if tier == 'quick' else ['real', 'metal', 'si', 'cgs', 'electron', 'micro', 'nano']
     fails, samples = [], []
     evals = nontriv = 0
     for bx, pl, pbc, units, ff, extra, shuffle in itertools.product(list(F.BOXES), ['inside', 'outside', 'faces'], pbcs, units_l, ['%.13f', '%.10e'], [False, True], [False, True]):
@@ -165,6 +165,11 @@ def roundtrip_dump_table(tier, seed):
                 pass
             tback = am.load('table', ttext, box=s.box, symbols=s.symbols, prop_info=tinfo)
             msgs += ['table: ' + m for m in F.same_system(am, s, tback, F.ftol(ff, 20.0), check_pbc=False)]
+            # box-scaled position columns (xs ys zs): the column description is passed explicitly to writer and reader
+            kw = dict(prop_name=['atom_id', 'atype', 'spos'])
+            stext = s.dump('atom_dump', lammps_units=units, float_format='%.13e', **kw)
+            sback = am.load('atom_dump', stext, symbols=s.symbols, lammps_units=units, **kw)
+            msgs += ['scaled dump columns: ' + m for m in F.same_system(am, s, sback, 1e-9 * 50, props=[])]
         except Exception as e:
             msgs.append('raised %s: %s' % (type(e).__name__, e))
         if msgs:
@@ -195,8 +200,7 @@ def roundtrip_poscar(tier, seed):
             s = F.make_system(am, bx, pl, (True, True, True), symbols=sym, gaps=False, seed=evals)
             if gaps:
                 s.atoms.atype = np.array([1, 3, 1, 3, 3, 1])
-                if sym:
-                    s.symbols = ['Al', 'Cu', 'Ni']
+                s.symbols = ['Al', 'Cu', 'Ni'] if sym else [None, None, None]
             text = s.dump('poscar', coordstyle=style, box_scale=scale, float_format=ff)
             back = am.load('poscar', text)
             order = np.argsort(s.atoms.atype, kind='stable')
@@ -207,11 +211,11 @@ def roundtrip_poscar(tier, seed):
             else:
                 if not F.close(back.box.vects, s.box.vects, tol * 10):
                     msgs.append('cell differs')
-                if not gaps and not np.array_equal(back.atoms.atype, s.atoms.atype[order]):
+                if not np.array_equal(back.atoms.atype, s.atoms.atype[order]):
                     msgs.append('types %r != %r' % (back.atoms.atype.tolist(), s.atoms.atype[order].tolist()))
                 if not F.close(back.atoms.pos, s.atoms.pos[order], tol * 40):
                     msgs.append('positions differ (max %g)' % np.abs(back.atoms.pos - s.atoms.pos[order]).max())
-                if sym and not gaps and tuple(back.symbols) != tuple(s.symbols):
+                if sym and tuple(back.symbols) != tuple(s.symbols):
                     msgs.append('symbols %r != %r' % (back.symbols, s.symbols))
             # a file written here by the VASP rules
             V = s.box.vects
